@@ -287,6 +287,20 @@ impl Sub for Duration {
         rhs.normalize();
         match self.centuries.checked_sub(rhs.centuries) {
             None => {
+                if rhs.centuries < 0 {
+                    // Overflowed: the result is only representable if it is exactly one century too many
+                    // and the nanoseconds borrow that century back.
+                    if i32::from(self.centuries) - i32::from(rhs.centuries)
+                        == i32::from(i16::MAX) + 1
+                        && self.nanoseconds < rhs.nanoseconds
+                    {
+                        return Self::from_parts(
+                            i16::MAX,
+                            self.nanoseconds + (NANOSECONDS_PER_CENTURY - rhs.nanoseconds),
+                        );
+                    }
+                    return Self::MAX;
+                }
                 // Underflowed, so we've hit the min
                 return Self::MIN;
             }
